@@ -82,3 +82,23 @@ Theorem C05_failed_promoted_before_fix :
     fst (select_current_before_fix ann (Some c) (Some a) u now) = u /\ r_name u <> r_name a.
 Proof. exact failed_promoted_before_fix. Qed.
 Print Assumptions C05_failed_promoted_before_fix.
+
+(** "ended by time" reads two things of the replica set and nothing else - its creation time and its restart record. Its
+    other conditions (its own Canary condition in particular, however young: a replica set reused by a later canary) do
+    not enter ... *)
+Theorem C05_ended_reads_only : forall oc rs rs' now,
+  r_created rs = r_created rs' ->
+  get_cond (rs_conds (r_status rs)) CT_PodRestarting = get_cond (rs_conds (r_status rs')) CT_PodRestarting ->
+  canary_ended oc rs now = canary_ended oc rs' now.
+Proof. exact ended_reads_only. Qed.
+Print Assumptions C05_ended_reads_only.
+
+(** ... so a restart recorded less than noRestartsDuration ago holds the promotion by time back, whatever else the
+    status says *)
+Theorem C05_recent_restart_holds_back : forall c d nrd rc rs now,
+  ca_duration c = Some d -> ca_norestarts c = Some nrd ->
+  get_cond (rs_conds (r_status rs)) CT_PodRestarting = Some rc -> is_zero_time (c_update rc) = false ->
+  now <= tadd (c_update rc) nrd ->
+  fst (canary_ended (Some c) rs now) = false.
+Proof. exact recent_restart_holds_back. Qed.
+Print Assumptions C05_recent_restart_holds_back.
